@@ -18,6 +18,11 @@ CLAIMED = {
    note='Trusted: Coq kernel (vm_compute); the reifier (evaluates the table functions, determinism checked by double evaluation); harness. No axioms. Remaining 119 known-but-unsupported versions are reported in the evidence, not asserted.',
    technique='reifier (evaluation of the table functions on the full finite domain) + kernel-evaluated finite theorem + universal permutation lemma',
    design='3/C06'),
+ 'C04': dict(
+   text='Machine-checked proof (Coq) for all integers: the model of Position.send_with_context (masks, shifts, ors on unbounded ints) equals the arithmetic 26/26/12 resp. 26/12/26 packing, fits 64 bits, and pos_unword(pos_word(x,y,z)) = (x,y,z) for every in-range triple under both layouts; likewise the 22/22/20 chunk-section position (including the `| ~0xFFFFF` sign extension) and both block-record formats. Which layout each of the 369 known versions uses is reified on every run by probing the real encoder and decoder, and the kernel evaluates the finite theorem: only the two layouts occur, x|y|z up to 404, x|z|y from 477 on, non-decreasing in between (a single switch-over). The packing models are tied to the code by differential runs at every known version (boundary products, single-bit words, random triples; records on both sides of 741).',
+   note='Trusted: Coq kernel; reifier probe (3 triples distinguishing the layouts, encoder and decoder must agree); extraction + driver; struct.pack(">Q"). No axioms.',
+   technique='Coq proof (bit operations reduced to div/mod, lia) + reified per-version layout decided by kernel evaluation + extracted-model differential correspondence',
+   design='3/C04'),
 }
 NOT_YET = 'check not built yet in this development (see DESIGN.md section 6 build order); not claimed'
 
